@@ -103,6 +103,17 @@ def steady(ctx):
                 s = s
             arr += [(">", q), ("<", s)]
         out.append(Scn("steady/%s" % variant, arr, {"autod": 1, "freed": 1, "loglevel": loglevel, "cls": "steady", "dump": 0, "maxcb": 100000000, "maxsec": 3000}))
+        if variant == "logoff":
+            # the same exchanges pipelined: d requests, then their d responses (constant depths that do not divide a power of two, and an
+            # irregular pattern) - freed transaction slots must be recycled whatever the depth
+            pairs = [(arr[2 * i][1], arr[2 * i + 1][1]) for i in range(n)]
+            for label, depths in (("pipe3", [3]), ("pipe5", [5]), ("pipeirr", [1, 3, 2, 5, 4, 7, 1, 6])):
+                parr, i, k = [], 0, 0
+                while i < n:
+                    d = depths[k % len(depths)]; k += 1
+                    grp = pairs[i:i + d]; i += d
+                    parr += [(">", b"".join(x[0] for x in grp)), ("<", b"".join(x[1] for x in grp))]
+                out.append(Scn("steady/%s" % label, parr, {"autod": 1, "freed": 1, "loglevel": 0, "cls": "steady", "dump": 0, "maxcb": 100000000, "maxsec": 3000}))
     return out
 
 
